@@ -104,8 +104,8 @@ class C19(Prop):
                  "stack / quicksort invariants by induction) + exact differential correspondence of the executable models with the ASan/UBSan-built C code")
     level_text = ("Theorems for all histories / inputs (no bound): (1) the chained key hash (Store/Lookup/Get/Reuse/Clone, 8-fold key_upsize, arena and index reallocation) "
                   "refines the insertion-ordered list of distinct keys for ANY hash function into [0,size) and any initial sizes, with no out-of-bounds access and no endless chain walk - for ARBITRARY byte strings "
-                  "(embedded NULs included; keyhash_refines, about the code after the repair 491f68d, which is the variant in the tree: regenerated flag KeyhashVariant.repaired); (2) the integer heap refines the sorted-list priority queue for every interleaving of inserts / extractions / peeks (min and max), draining yields the sorted multiset; "
-                  "(3) red-black insertion as coded never reaches esl_fatal and keeps BST order, black root, no red-red, equal black height, exactly the inserted keys, height <= 2 log2(n+1), and converts to the sorted list; POINTER LEVEL (records with small/large/parent pointers in a store): esl_red_black_doublekey_insert with rebalance - descent, linking, recolouring with its recursion up the parent pointers, the four rotations incl. root / great-grandparent relinking - REFINES the inductive insert for every laid-out tree, every key and every history (rb_ptr_insert_refines, rb_ptr_rebalance_refines, rb_ptr_history: same failure set, same keys and colours, correct child AND parent pointers, exactly the old records plus the new one, nothing else written), lookup, conversion to the doubly linked list passing the library's own list test, pool reuse; "
+                  "(embedded NULs included; keyhash_refines, about the code after the repair 491f68d, which is the variant in the tree: regenerated flag KeyhashVariant.repaired), after Reuse EVERY slot is empty at any fill and any lookup answers not-found reading no record (keyhash_reuse_empties_every_slot, keyhash_reuse_lookup_immediate; raw slot walk op kh_slots compared exactly); (2) the integer heap refines the sorted-list priority queue for every interleaving of inserts / extractions / peeks (min and max), draining yields the sorted multiset; "
+                  "(3) red-black insertion as coded never reaches esl_fatal and keeps BST order, black root, no red-red, equal black height, exactly the inserted keys, height <= 2 log2(n+1), and converts to the sorted list; POINTER LEVEL (records with small/large/parent pointers in a store): esl_red_black_doublekey_insert with rebalance - descent, linking, recolouring with its recursion up the parent pointers, the four rotations incl. root / great-grandparent relinking - REFINES the inductive insert for every laid-out tree, every key and every history (rb_ptr_insert_refines, rb_ptr_rebalance_refines, rb_ptr_history: same failure set, same keys and colours, correct child AND parent pointers, exactly the old records plus the new one, nothing else written), lookup, conversion to the doubly linked list passing the library's own list test, and the caller\'s loop with the node pool (take, write key, insert, give a refused record back: rb_ptr_pool_giveback - tree records + free records stay a permutation, none lost, none handed out twice); "
                   "(4) stacks refine the LIFO list for every history of push/pop/DiscardTopN/DiscardSelected/Reuse, shuffles permute for every generator state; in thread-communication mode (mutex + condition variable, blocking Pop, ReleaseCond) an interleaving transition system shows for EVERY schedule of any number of pusher / popper threads that no item is lost or duplicated, eslEOD is answered only after ReleaseCond, the only stuck state is 'all unfinished threads asleep on an empty stack before ReleaseCond', and after ReleaseCond every thread can run to completion; "
                   "(5) index quicksort (partition as written, incl. the no-op first swap) terminates without out-of-bounds access and returns a permutation of 0..n-1 ordering the data for any total preorder, every n>=0. "
                   "The hand-written models are tied to the working tree by an exact differential run over operation histories including internal state dumps; abstract-type monitors in Python give a concrete failing history.")
